@@ -279,8 +279,11 @@ def _main(prop, tier, seed, args, scratch, t0):
     }
     if skipped:
         coverage["inconclusive"] = f"{skipped} generated cases were not evaluated because a shard's time budget ran out"
-    for k, v in extras.items():
-        coverage[k] = v
+    if hasattr(mod, "merge_extra"):
+        coverage.update(mod.merge_extra(extras))
+    else:
+        for k, v in extras.items():
+            coverage[k] = v
     if hasattr(mod, "exhaustive") and not args.only and not args.replay:
         coverage["exhaustive"] = bool(mod.exhaustive(tier)) and not skipped
     sens = os.path.join(HERE, "sensitivity.json")
